@@ -1,7 +1,8 @@
 """Projection of implementation objects (networkx graphs) to the JSON records the TLA+ specification
 reads (spec/Tucan.tla: MkGraph).  One projection, used by every recorder and replayer.
 
-Graph record (atoms listed by label 0..n-1; TLA+ atom id = label + 1):
+Graph record (atoms listed by rank of their integer label -- for labels 0..n-1 rank = label; TLA+ atom id = rank + 1;
+`labs` = the sorted labels themselves, so that "same label set" and "numbered 0..n-1" can be stated):
   n, atoms[i] = {z, sym, m, r, hm, hr, c, p, tag, attr, mattr}, adj[i] = sorted neighbour labels,
   order = labels in node-iteration order, edges = [[a, b, rendering of the bond's attributes]] (a < b)
     m / r / c : mass / radical / charge with absent = 0;  hm / hr / hc : key present
@@ -9,7 +10,7 @@ Graph record (atoms listed by label 0..n-1; TLA+ atom id = label + 1):
     tag       : value of the driver's TAG attribute (absent = 0)
     attr      : canonical rendering of ALL node attributes except partition
     mattr     : canonical rendering of the chemically meaningful attributes only
-A graph whose labels are not exactly 0..n-1 has no record: `project` returns {"bad": reason}.
+A graph whose labels are not integers has no record: `project` returns {"bad": reason}.
 """
 from __future__ import annotations
 import json
@@ -43,29 +44,37 @@ def render_attrs(d, skip=(), only=None):
 SATURATE = 10**8
 
 
+def fingerprint(v):
+    """integers travel as JSON numbers only when they fit TLC's 32-bit integers: values below 10^8 travel as they are,
+    larger ones as 10^8 + (their last nine digits) -- the specification reads numerals the same way (spec/Grammar.tla:
+    NumVal, spec/MolV3000.tla: NatF), so that two large numbers that differ in their low digits stay different"""
+    a = abs(v)
+    f = a if a < SATURATE else SATURATE + a % 10**9
+    return f if v >= 0 else -f
+
+
 def _small(v, absent=0):
-    """integers travel as JSON numbers only when they fit TLC's 32-bit integers"""
     if v is None:
         return absent
     if isinstance(v, bool) or not isinstance(v, int):
         return None
-    if abs(v) > SATURATE:          # the specification's numbers saturate at the same bound (spec/Grammar.tla: BigNum)
-        return SATURATE if v > 0 else -SATURATE
-    return v
+    return fingerprint(v)
 
 
 def project(g, keep_scratch=True):
     nodes = list(g.nodes)
     n = len(nodes)
-    if sorted(nodes, key=lambda x: (str(type(x)), x)) != list(range(n)) or any(type(x) is not int for x in nodes):
-        return {"bad": "labels are not 0..n-1: %r" % (nodes[:12],)}
+    if any(type(x) is not int for x in nodes):
+        return {"bad": "labels are not integers: %r" % (nodes[:12],)}
+    labs = sorted(nodes)
+    rank = {lab: i for i, lab in enumerate(labs)}          # atoms are listed by rank of their label (labels 0..n-1: rank = label)
     atoms = []
-    for lab in range(n):
+    for lab in labs:
         d = g.nodes[lab]
         z, m, r, c, p = (_small(d.get("atomic_number")), _small(d.get("mass")), _small(d.get("rad")),
                          _small(d.get("chg")), _small(d.get("partition"), -1))
         if None in (z, m, r, c, p) or not isinstance(d.get("element_symbol"), str):
-            return {"bad": "atom %d has non-integer / oversized identity attributes: %r" % (lab, d)}
+            return {"bad": "atom %d has non-integer identity attributes: %r" % (lab, d)}
         xyz = [repr(float(d[k])) if isinstance(d.get(k), (int, float)) and not isinstance(d.get(k), bool) else "" for k in
                ("x_coord", "y_coord", "z_coord")]
         atoms.append({"z": z, "sym": d["element_symbol"], "m": m, "r": r, "c": c, "x": xyz[0], "y": xyz[1], "z_": xyz[2],
@@ -77,12 +86,17 @@ def project(g, keep_scratch=True):
     for a, b, d in g.edges(data=True):
         if a == b:
             return {"bad": "self loop at %r" % a}
-        lo, hi = (a, b) if a < b else (b, a)
+        lo, hi = (rank[a], rank[b]) if rank[a] < rank[b] else (rank[b], rank[a])
         bt = d.get("bond_type")
         edges.append([lo, hi, render_attrs(d), bt if isinstance(bt, int) and not isinstance(bt, bool) and abs(bt) < 2**30 else -1])
     edges.sort()
-    adj = [sorted(g.neighbors(lab)) for lab in range(n)]
-    return {"n": n, "atoms": atoms, "adj": adj, "order": nodes, "edges": edges}
+    adj = [sorted(rank[x] for x in g.neighbors(lab)) for lab in labs]
+    return {"n": n, "atoms": atoms, "adj": adj, "order": [rank[x] for x in nodes], "edges": edges, "labs": [fingerprint(x) for x in labs]}
+
+
+def dense(rec):
+    """the record of a graph whose labels are exactly 0..n-1"""
+    return "bad" not in rec and rec["labs"] == list(range(rec["n"]))
 
 
 def identity_key(rec):
